@@ -22,6 +22,7 @@ import NemoVerif.Lemmas.SerializeErase
 import NemoVerif.Lemmas.SerializeIndex
 import NemoVerif.Models.CoreVM.Run
 import NemoVerif.Lemmas.CleanUpBisimWrites
+import NemoVerif.Lemmas.CleanUpBisimHeads
 namespace NemoVerif.C11
 open NemoVerif NemoVerif.Serialize NemoVerif.CleanUp
 
@@ -407,17 +408,35 @@ finding `cleanup-dangling-parent`, established by fixes/C11-cleanup-dangling-par
   `applyOp op` for EVERY index write about a kept instance (all of `CoreIndex.Op` but `removeInst`) proved (`aged_index_write`, `aged_simple_index_write`)
   `setFlowStatus` (status + time stamp), `dropHeads` (`heads.clear()` + unregister)      proved (`aged_set_flow_status`, `aged_drop_heads`)
   `abortFlow c … deactivate=True` on a discardable instance (done, not activated)        proved: a no-op (`deactivating_a_discardable_instance_is_a_noop`)
-  `abortFlow`: deactivation loop `for c in x.childFlowUids: getInstX? c`                 needs I2 + `releaseAction`, `failedEvent`/`flowObjOf`, `restartActivated`
-                                                                                         (reads of kept records only: same pattern) — not reached;
-                                                                                         the look-up itself cannot fail newly: the aged child list is the live one filtered
-  `setHeadPos`/`setHeadStatus`/`fork` (`nameFor` → `getEventName`), `handleEventMatching`
-   (`createEventReference` → `getEvent`), `advanceHeadFront`/`slide`, EndScope            need `Rel2` for the expression evaluator (`Eval`, `Events`: reads of
-                                                                                         contexts of kept instances, pattern as for `getAllHeadCandidates`) — not reached
+  the expression evaluator `evalExpr`/`evalBase` (every expression form incl. `$ref.attr` on flow / action / event
+   objects, `uid()`, interpolation with its try/except), `lookupVar`, `attrOf`, `ctxHolder`, `getCtx`, `setCtxVar`,
+   `evalIn`, `evalArgs`, `evalEmpty`                                                   proved up to the model giving up (`aged_eval_agrees`, `aged_context_access`)
+  event construction: `flowObjOf`, `FlowState.get_event` (`flowGetEvent`, `flowStartEvent`), `Action.get_event`
+   (`actionGetEvent`), the throw-away objects (`tempFlowObj`, `tempAction`, `instanceArguments`), `resolveRef`,
+   `getEventName` (`get_event_name_from_element`), `getEvent` (`get_event_from_element`)     proved up to the model giving up (`aged_events_agree`)
+  `nameFor` (what `_flow_head_changed` computes), `setHeadPos` (`head.position = p`), `setHeadStatus` (`head.status = st`),
+   incl. the branch where the callback raises after the head was unregistered           proved up to the model giving up (`aged_head_writes`)
+  `setAction` (`state.actions[uid] = a`)                                                  proved (`Bisim.Aged.setAction`)
+  `abortFlow`: deactivation loops over `child_flow_uids` (the aged list is the live one filtered; the skipped iterations
+   are no-ops, see above), `releaseAction` → `generateUmimEvent` → `updateActionStatusByEvent` (iterates ALL instances: the
+   discarded ones are done, hence not listening, hence skipped), `failedEvent`, `restartActivated`      not reached (every piece it reads is covered above; needs I2 and the
+                                                                                         loop-over-filtered-list argument)
+  `eventMatchingScore` (reads `state.actions` for the start arguments of the event's action)   needs: actions named by queued events belong to kept instances — not reached
+  `handleEventMatching` (`createEventReference`, `startFlow` look up `source_flow_instance_uid` of the event being
+   processed), `processInternalEvent`, `advanceHeadFront`/`slide`/`finishFlow`, EndScope     need: uids carried by queued events name kept instances (they are produced after the
+                                                                                         clean-up of the same `run_to_completion`) — not reached
   `referenceActivatedInstance` (iterates `flow_id_states[id]`, the aged list is filtered) removed entries are skipped (`activated = 0`) — not reached
   `flowHierarchy` (stops at a discarded ancestor)                                        the two runs DIFFER here (shorter list); its only use is logging — not reached
-  `cleanUpState` itself establishes `Aged` between the live and the aged run            not reached in CoreVM; function level: `cleanup_removes_exactly`,
-                                                                                         `cleanup_frame`, `cleanup_keeps_*` on the `CleanUp` model (tied to the real
-                                                                                         `_clean_up_state` by the clean-up differential)
+  `cleanUpState` itself establishes `Aged` between the live and the aged run            not reached in CoreVM (needs link invariants C09 knows to be violated); function level:
+                                                                                         `cleanup_removes_exactly`, `cleanup_frame`, `cleanup_keeps_*` on the `CleanUp` model (tied to
+                                                                                         the real `_clean_up_state` by the clean-up differential); on the REAL states the relation is
+                                                                                         checked after every event of every aged run (harness, `aged-relation-checked`)
+
+"Up to the model giving up" (`Bisim.Sim2U`, `Bisim.Diag`): both runs give the same value or raise the same Python exception
+in `Aged` states — or one of them stops with a MODEL error (`unsupported` / `outOfFuel` / `guardFailed`).  The model leaves
+its fragment exactly where Python would follow a reference to a discarded instance (the object lives on through the reference;
+the model has no heap); `CleanupBisim` speaks about continuations on which both runs stay inside the model, so nothing is lost.
+`attemptPy` (the interpreter's `try … except Exception`) catches Python exceptions only, so the relation composes through it.
 -/
 
 section T3proved
@@ -545,6 +564,35 @@ example : OMap.lookup "d" sLive.r.fx = some xd ∧ xd.activated = 0 ∧
 example : keepB ["d"] "m" = true ∧ SimpleOpOn "m" (.setFlowStatus "m" .started) := ⟨by decide, .inl ⟨_, rfl⟩⟩
 example : keepB ["d"] (opTarget (.setPos "m" "h0" 1 (some "E2"))) = true ∧ isRemove (.setPos "m" "h0" 1 (some "E2")) = false :=
   ⟨by decide, rfl⟩
+
+/-- **`eval_expression`** (every expression form) and the argument evaluation of a kept instance: same value / same Python
+    exception in related states, or the model gives up -/
+theorem aged_eval_agrees {rm : List FUid} (c : EvalCtx) (fuel : Nat) (e : Expr) {f : FUid} (hk : keepB rm f = true)
+    (args : List (String × Expr)) :
+    Diag rm (evalExpr c fuel e) ∧ Diag rm (evalBase c fuel e) ∧ Diag rm (evalIn f e) ∧ Diag rm (evalArgs f args) :=
+  ⟨(diag_eval c fuel).1 e, (diag_eval c fuel).2 e, diag_evalIn hk e, diag_evalArgs hk args⟩
+
+/-- the context of a kept instance: attribute access on any value, `flow_state.context`, `context.update` -/
+theorem aged_context_access {rm : List FUid} (v : Val) (a : String) (l : Bool) {f : FUid} (hk : keepB rm f = true) (k : String) (w : Val)
+    {s s' : VM} (h : Aged rm s s') :
+    Diag rm (attrOf v a l) ∧ Diag rm (getCtx f) ∧ Sim2U rm (fun _ _ => True) (setCtxVar f k w) (setCtxVar f k w) s s' :=
+  ⟨diag_attrOf v a l, diag_getCtx hk, sim_setCtxVar h hk k w⟩
+
+/-- `get_event_name_from_element` / `get_event_from_element` evaluated for a kept instance (incl. `$ref.Finished()` on flow and
+    action objects, throw-away instances for `FlowName.Started()` patterns) -/
+theorem aged_events_agree {rm : List FUid} {f : FUid} (hk : keepB rm f = true) (spec : Spec) (isMatch : Bool) :
+    Diag rm (getEventName f spec) ∧ Diag rm (getEvent f spec isMatch) ∧ Diag rm (flowObjOf f) :=
+  ⟨diag_getEventName hk spec, diag_getEvent hk spec isMatch, diag_flowObjOf hk⟩
+
+/-- `head.position = p` and `head.status = st` on a head of a kept instance: setter, `_flow_head_changed` (the element name is
+    evaluated in the state), the index write — and the branch where the callback raises after the head was unregistered -/
+theorem aged_head_writes {rm : List FUid} {k : CoreIndex.Key} (hk : keepB rm k.1 = true) (p : Nat) (st : HeadStatus) :
+    Diag rm (setHeadPos k p) ∧ Diag rm (setHeadStatus k st) ∧ Diag rm (nameFor k.1 p st) :=
+  ⟨diag_setHeadPos hk p, diag_setHeadStatus hk st, diag_nameFor hk p st⟩
+
+/-- what `Diag` says, spelled out on the non-vacuity pair: running `setHeadPos ("m","h0") 1` in `sLive` and in `sAged` -/
+example : Sim2U ["d"] Eq (setHeadPos ("m", "h0") 1) (setHeadPos ("m", "h0") 1) sLive sAged :=
+  (aged_head_writes (rm := ["d"]) (k := ("m", "h0")) (by decide) 1 .active).1 sLive sAged aged_example
 
 end T3proved
 
